@@ -66,6 +66,12 @@ Seeds == {
   (* numeric types meeting in compositions (which member builds the value?) *)
   Sch([type |-> "number", allOf |-> << Ty("integer") >>,
        anyOf |-> << Ty("integer"), Ty("number") >>]),
+  (* overlapping anyOf members that build different results: the FIRST accepting member builds *)
+  Sch([anyOf |-> << Ty("integer"), Ty("number") >>]),
+  Sch([types |-> <<"number", "integer">>]),
+  Sch([anyOf |-> << Sch([type |-> "object", properties |-> << <<"a", Sch([default |-> JInt(1)])>> >>]),
+                    Sch([type |-> "object", properties |-> << <<"b", Sch([default |-> JInt(2)])>>,
+                                                               <<"class", Ty("integer")>> >>]) >>]),
   (* a required name without a declared property next to additionalProperties / patterns *)
   Sch([type |-> "object", title |-> "T", required |-> <<"a", "b">>, additionalProperties |-> FalseS,
        patternProperties |-> << <<"^b", Ty("integer")>> >>]),
